@@ -1,5 +1,6 @@
 import RpylibModel.Basic.Proto
 import RpylibModel.Model.Pairing
+import RpylibModel.Model.PairingHyperbolic
 open Rpylib Rpylib.Pairing
 
 def parseKind? : String → Option Kind
@@ -29,6 +30,14 @@ def showOut (f : Nat → List Int) : Option Nat → String
   lazy [sizes]                                -> [t;t;..]
   sm1d <L> <R> <maxLogged> [xs]               -> `<out;out;..> <last> <maxFrontier>` (out = state or X)
   smbox <kind> <o> [ns] <maxLogged> [xs]      -> same for a box grid with PairingToZd(kind, omit zero)
+  hypproj <start> <count>                     -> [x,y;..]          HyperbolicPairing.projection2d, a block of indices
+  hypprojmany [z,..]                          -> [x,y,n;..]        projection2d and upper_bound_a_n(z) for each z
+  hyppairmany [x,y;..]                        -> [z,..]            HyperbolicPairing.pairing2d
+  hypprojd <d> <start> <count>                -> [x1,..,xd;..]     HyperbolicPairing().projection(z, d) (base-class fold)
+  hyppairn [x1,..,xd;..]                      -> [z,..]            HyperbolicPairing().pairing(x)
+  hypzdproj <d> <start> <count>               -> [v1,..,vd;..]     PairingToZd(HyperbolicPairing(), d).project
+  an [n,..]                                   -> [a_n(n),..]       numbers.a_n
+  factor <n>                                  -> [p,e;..]          sorted(factorint(n).items())
 -/
 def step (t : List String) : String :=
   match t with
@@ -97,6 +106,38 @@ def step (t : List String) : String :=
       let (nxt, outs) := smRunList (fun i => inBox o ns (proj i)) (mf + 1).toNat ml 0 xs
       ";".intercalate (outs.map (showOut proj)) ++ " " ++ toString ((nxt : Int) - 1) ++ " " ++ toString mf
     | _, _, _, _, _ => "bad-op"
+  | ["hypproj", a, c] =>
+    match parseNat? a, parseNat? c with
+    | some a, some c => showListList toString ((List.range c).map (fun i => [(hypProj (a + i)).1, (hypProj (a + i)).2]))
+    | _, _ => "bad-op"
+  | ["hypprojmany", zs] =>
+    match parseNatList? zs with
+    | some zs => showListList toString (zs.map (fun z => [(hypProj z).1, (hypProj z).2, upperBound z]))
+    | none => "bad-op"
+  | ["hyppairmany", xss] =>
+    match parseListListWith? parseNat? xss with
+    | some xss => showNatList (xss.map (fun t => match t with | [x, y] => hypPair x y | _ => 0))
+    | none => "bad-op"
+  | ["hypprojd", d, a, c] =>
+    match parseNat? d, parseNat? a, parseNat? c with
+    | some d, some a, some c => showListList toString ((List.range c).map (fun i => hyperbolic.projD (a + i) d))
+    | _, _, _ => "bad-op"
+  | ["hyppairn", xss] =>
+    match parseListListWith? parseNat? xss with
+    | some xss => showNatList (xss.map hyperbolic.pairN)
+    | none => "bad-op"
+  | ["hypzdproj", d, a, c] =>
+    match parseNat? d, parseNat? a, parseNat? c with
+    | some d, some a, some c => showListList toString ((List.range c).map (fun i => zdProject hyperbolic.projD 1 d (a + i)))
+    | _, _, _ => "bad-op"
+  | ["an", ns] =>
+    match parseNatList? ns with
+    | some ns => showNatList (ns.map aN)
+    | none => "bad-op"
+  | ["factor", n] =>
+    match parseNat? n with
+    | some n => showListList toString ((factor n).map (fun pe => [pe.1, pe.2]))
+    | none => "bad-op"
   | _ => "bad-op"
 
 def main : IO Unit := runStateless step
